@@ -806,6 +806,16 @@ def arith(op, *args, w=None):
                 return concat([const(k, lo & ((1 << k) - 1)), arith('add', hi, const(w - k, hi_c)) if hi_c else hi])
     if op == 'sub' and args[1].op == 'const' and args[1].args[0] == 0:
         return args[0]
+    if op == 'sub' and args[0].op == 'const' and args[0].args[0] == (1 << w) - 1:
+        return not_(args[1])                      # -1 - x == ~x
+    if op == 'sub' and args[0].op == 'const' and args[1].op == 'concat' and args[1].args[0].op == 'const' and len(args[1].args) > 1:
+        # constant - {known low bits, unknown high part}: the low part and its borrow are computed, the subtraction continues in the high part
+        c, x = args
+        k = x.args[0].w
+        lo = (c.args[0] & ((1 << k) - 1)) - x.args[0].args[0]
+        borrow = 1 if lo < 0 else 0
+        hi_c = ((c.args[0] >> k) - borrow) & ((1 << (w - k)) - 1)
+        return concat([const(k, lo & ((1 << k) - 1)), arith('sub', const(w - k, hi_c), slice_(x, k, w - k))])
     if op == 'mul':
         for i in (0, 1):
             if args[i].op == 'const' and args[i].args[0] == 1:
